@@ -98,12 +98,15 @@ def cget (c : Cache β) (k : Key) : Option (Entry β) :=
 
 def cput (c : Cache β) (k : Key) (e : Entry β) : Cache β := (k, e) :: c
 
-/-- `digest.Verifier` of the recorded chunk digest fed with `b`: `Verified()`. A missing digest
-is a verifier error. -/
-def chunkOk (t : Toc δ) (c : Nat) (b : β) : Bool :=
-  match t.dig c with
+/-- `digest.Verifier` of the digest string `dg` fed with `b`: `Verified()`. A missing / unparsable
+digest is a verifier error. -/
+def digOk (dg : Option δ) (b : β) : Bool :=
+  match dg with
   | some d => decide (H b = d)
   | none => false
+
+/-- ... for the digest the TOC records for chunk `c`. -/
+def chunkOk (t : Toc δ) (c : Nat) (b : β) : Bool := digOk H (t.dig c) b
 
 /-- `reader.verifyAndCache` (also the pre-reader callback of `reader.OpenFile` after its own cache
 check): `verifyChunk` compares only when `reader.verify` is set; then `cacheData`. -/
@@ -205,7 +208,7 @@ def prefetchDecideWith (s : St β δ) (c : Nat) (reply : Option β) (dg : Option
     match reply with
     | none => (s, .err, none)
     | some b =>
-      if chunkOk H { s.toc with dig := fun _ => dg } c b then (s, .ok, some ⟨[(c, b)], true⟩)
+      if digOk H dg b then (s, .ok, some ⟨[(c, b)], true⟩)
       else if s.prohibit then (s, .err, none)
       else ({ s with lastVerifyErr := true }, .ok, some ⟨[(c, b)], false⟩)
 
